@@ -640,6 +640,11 @@ class Fetcher:
                 res[name] = content
 
             self.fsout.set_db_key("html", content, res)
+            if self.fetch_images:
+                # prop=images of a revid lists the images of the page's current revision;
+                # the parse result lists those of the revision that is rendered
+                images = {self.nshandler.get_fqname(img, 6) for img in res.get("images", [])}
+                network_workflow.enqueue_missing(images, self.imageinfo_todo, self.scheduled)
             image_nodes = self._get_image_nodes(res)
             timeline_nodes = self._get_timeline_image_nodes(res)
             map_nodes = self._get_map_image_nodes(res)
